@@ -726,6 +726,14 @@ def unequal_completions(desc):
             for a in feas:
                 combo = tuple(a[f] for f in simple)
                 counts.setdefault(combo, set()).add(tuple(a[s] for s in src))
-            if len({len(v) for v in counts.values()}) > 1:
+
+            def copies(asg):
+                # a weighted level of a basic factor outside the crossing is expanded into that many copies
+                n = 1
+                for sname, li in zip(src, asg):
+                    if sname not in cr:
+                        n *= factors[sname].weights[li]
+                return n
+            if len({sum(copies(x) for x in v) for v in counts.values()}) > 1:
                 return True
     return False
